@@ -44,6 +44,7 @@ var Prop = &engine.Prop{
 		{Name: "truncate", Quick: 4800, Thorough: 576000, Fn: truncateCase},
 		{Name: "garbage", Quick: 6400, Thorough: 768000, Fn: garbageCase},
 		{Name: "stream", Quick: 6400, Thorough: 768000, Fn: streamCase},
+		{Name: "conc", Quick: 80, Thorough: 4000, Fn: concCase},
 	},
 	Floors: map[string]int64{
 		"rt_sequences":           2000,
